@@ -605,7 +605,11 @@ def rule_r3(ctx) -> List[R.Inst]:
         insts3 = _r3_columnwise(ctx, fn, file, rets[-1], ("_", formula, frame, fake_it))
         return insts3 + _r3_columns(M, rid)
     calls = [c for (nm_, c) in all_ops if isinstance(c, ast.Call)]
-    extra_ops = [nm_ for (nm_, c) in all_ops if nm_ == "index" or (isinstance(c, ast.Call) and nm_ not in ("copy", "assign"))]
+    def _renumbers(c):
+        return isinstance(c, ast.Call) and c.func.attr == "reset_index" and any(
+            k.arg == "drop" and isinstance(k.value, ast.Constant) and k.value.value is True for k in c.keywords)
+    renumbered = any(_renumbers(c) for (_n, c) in all_ops)       # same rows, fresh labels 0..n-1: the frame no longer shares the list's labels
+    extra_ops = [nm_ for (nm_, c) in all_ops if nm_ == "index" or (isinstance(c, ast.Call) and nm_ not in ("copy", "assign") and not _renumbers(c))]
     if root is None or not unparse(root).endswith(".bpms.df"):
         insts.append(R.undec(rid, "one-row-per-tempo", file, fn.node.lineno, "tempo frame not found"))
         root_txt = None
@@ -634,7 +638,14 @@ def rule_r3(ctx) -> List[R.Inst]:
             ref = n.targets[0].id
     mul = [(v, n) for (c, v, n) in stores if c == "multiplier"]
 
+    foreign = []          # columns read from the tempo LIST itself (its own row labels), not from the working frame
+
     def col_of(n):
+        if root_txt is not None and isinstance(n, ast.Attribute) and unparse(n.value) == root_txt[:-3] and n.attr != "df":
+            foreign.append(n)
+            return n.attr
+        if root_txt is not None and isinstance(n, ast.Subscript) and unparse(n.value) == root_txt and isinstance(n.slice, ast.Constant):
+            foreign.append(n)
         if isinstance(n, ast.Attribute) and unparse(n.value) in frame_names:
             return n.attr
         if isinstance(n, ast.Subscript) and unparse(n.value) in frame_names and isinstance(n.slice, ast.Constant):
@@ -645,7 +656,14 @@ def rule_r3(ctx) -> List[R.Inst]:
     else:
         lf = lambda n: ("BPM" if col_of(n) == "bpm" else ("REF" if unparse(n) == ref else None))   # noqa: E731
         r = sym.canon(mul[0][0], lf)
-        if r.same(sym.parse("REF / BPM")):
+        if renumbered and foreign and r.symbols() <= {"REF", "BPM"}:
+            insts.append(R.viol(rid, "multiplier", file, mul[0][1].lineno,
+                                f"the working frame has been renumbered (reset_index(drop=True)) but the multiplier is computed from "
+                                f"'{unparse(foreign[0])}', a column that still carries the tempo list's own row labels: the store aligns on labels, so "
+                                f"for a tempo list whose labels are not 0..n-1 (after a filter) each tempo point gets another point's "
+                                f"multiplier or NaN — multiplier x bpm is no longer the reference",
+                                construct=f"multiplier = {unparse(mul[0][0])} stored into a renumbered frame"))
+        elif r.same(sym.parse("REF / BPM")):
             insts.append(R.ok(rid, "multiplier", file, mul[0][1].lineno, idiom="multiplier = reference / bpm  (multiplier * bpm = reference)"))
         elif r.symbols() <= {"REF", "BPM"}:
             insts.append(R.viol(rid, "multiplier", file, mul[0][1].lineno,
